@@ -154,7 +154,7 @@ class UtilityParity(ClassificationMoment):
                     np.ones(y.shape, dtype=np.float64),
                 ]
             ).T
-        self.utilities = utilities
+        self.utilities = np.asarray(utilities, dtype=float)
         self.utility_diff = self.utilities[:, 1] - self.utilities[:, 0]
         self.prob_event = self.tags.groupby(_EVENT).size() / self.total_samples
         self.prob_group_event = self.tags.groupby([_EVENT, _GROUP_ID]).size() / self.total_samples
